@@ -10,7 +10,7 @@ pub fn c01(tier: Tier, seed: u64) -> i32 {
     let mut rep = Report::new("C01", tier, seed);
     rep.rule = "history workload H on plain SPL pools; after every successful instruction (every prefix) oracle A: vault >= protocol fees owed + sum over all Position accounts (bank scan) of (fee_owed + pending fees + exact floor amounts of withdrawing all liquidity at the current price), exact big-integer arithmetic; oracle B at checkpoints and at the end: on a clone of the bank, in random order, update-fees / remove all liquidity / collect fees for every position and collect protocol fees - every step must succeed; oracle C: a signer that only swaps never ends with >= of both tokens and > of one. distinct = (instruction, ticks crossed bucket)".into();
     rep.assumptions = vec![SVM_ASSUMPTION.into(), "reward vaults excluded (C11); transfer-fee tokens excluded (C16)".into()];
-    let per_shard = tier.pick(20, 2000);
+    let per_shard = tier.pick(80, 2000);
     let drain_every = tier.pick(7, 2);
     let acc = run_histories(
         seed,
@@ -30,7 +30,7 @@ pub fn c03(tier: Tier, seed: u64) -> i32 {
     let mut rep = Report::new("C03", tier, seed);
     rep.rule = "every swap / swap_v2 of the history workload (SPL and Token-2022 pools incl. transfer-fee mints): paid <= amount (exact-in), received <= amount (exact-out), price moves only in the trade direction, stays in bounds and not beyond the limit, used < amount => final price == limit/bound, exact-out without limit is all-or-nothing; for a third of the successful swaps the same swap is re-executed on clones of the pre-state with the other-amount threshold set to x-1, x, x+1 (x = realised amount): exactly the permitted ones succeed and those are byte-identical to the original. distinct = (instruction, mode, direction, explicit limit, partial fill, token-2022)".into();
     rep.assumptions = vec![SVM_ASSUMPTION.into()];
-    let per_shard = tier.pick(16, 1600);
+    let per_shard = tier.pick(64, 1600);
     let acc = run_histories(
         seed,
         per_shard,
@@ -50,7 +50,7 @@ pub fn c06(tier: Tier, seed: u64) -> i32 {
     let mut rep = Report::new("C06", tier, seed);
     rep.rule = "every successful swap of the history workload on plain-token pools (static and adaptive fee): the per-step records from the swap-loop hook are re-priced: fee == ceil(in*rate/(1e6-rate)) or the unspendable remainder on a non-reaching exact-in step; sum(in+fee) == what left the trader == what entered the vault, sum(out) likewise, no other account of the trader changes; protocol fee owed grows by sum floor(fee*p/1e4), fee growth of the input token by sum floor((fee-cut)*2^64/L_step) (mod 2^128), the other token's owed/growth unchanged; the Traded event equals all of these; both legs of every successful two-hop (v1 and v2, all four direction combinations) get the same bookkeeping, event and vault/trader conservation checks per pool; collect_protocol_fees pays exactly the owed amounts and zeroes them. distinct = (instruction, mode, direction, #steps bucket, protocol fee rate, fee rate, adaptive)".into();
     rep.assumptions = vec![SVM_ASSUMPTION.into(), "per-step amounts are read from the verif hook inside the swap loop (hook records loop variables; it computes nothing)".into()];
-    let per_shard = tier.pick(16, 1600);
+    let per_shard = tier.pick(64, 1600);
     let acc = run_histories(
         seed,
         per_shard,
@@ -70,7 +70,7 @@ pub fn c07(tier: Tier, seed: u64) -> i32 {
     let mut rep = Report::new("C07", tier, seed);
     rep.rule = "shadow fee ledger in exact arithmetic, independent of the program's accumulators: every swap step (hook record) with liquidity > 0 credits each Position account found in the bank whose range contains the step's tick with lp_fee*L_i/L_step; whenever an instruction changes a position's owed fees/checkpoints the credited amount must be <= the exact share and short of it by at most 1 + n_steps*L_i/2^64 (nothing credited is accepted only when L*growth leaves 128 bits); fee growth accumulators of empty pools are seeded anywhere in u128 incl. just below wrap-around. distinct = (instruction, earned A/B, liquidity magnitude)".into();
     rep.assumptions = vec![SVM_ASSUMPTION.into(), "state seeding: fee_growth_global_a/b of a pool are overwritten only while the pool has no position and no initialised tick".into()];
-    let per_shard = tier.pick(20, 2000);
+    let per_shard = tier.pick(80, 2000);
     let acc = run_histories(
         seed,
         per_shard,
@@ -89,7 +89,7 @@ pub fn c12(tier: Tier, seed: u64) -> i32 {
     let mut rep = Report::new("C12", tier, seed);
     rep.rule = "function level: on byte snapshots of (whirlpool, position, lower array, upper array) taken from running histories (reachable bytes, both array encodings, same-array and two-array positions, pools with 0-3 rewards running, paused or uninitialised), with liquidity deltas {0, +-1, +-L, -(L+1), i128::MIN/MAX, overflowing, random} and timestamps {equal, earlier, later, u64::MAX}: Anchor (deserialize -> calculate_modify_liquidity -> sync -> token deltas -> serialize) vs Pinocchio (memory-mapped views over copies): same Ok/Err and error number, every field of the update structs, token amounts, and the resulting bytes of all four accounts. instruction level: every increase/decrease(_v2) of the history is also executed on a clone of the pre-state through whirlpool::entry (Anchor dispatch): same success/failure, identical resulting bank, identical event bytes; the six Pinocchio discriminators never reach the Anchor dispatcher through entrypoint. distinct = (level, instruction or delta sign, encoding, outcome)".into();
     rep.assumptions = vec![SVM_ASSUMPTION.into(), "the two Pinocchio-only instructions (by-token-amounts, reposition) have unreachable!() Anchor bodies: they are judged by C05/C07/C08/C16/C18 monitors, not by a route differential".into()];
-    let per_shard = tier.pick(14, 1400);
+    let per_shard = tier.pick(56, 1400);
     let acc = run_histories(
         seed,
         per_shard,
@@ -112,7 +112,7 @@ pub fn c17(tier: Tier, seed: u64) -> i32 {
     let mut rep = Report::new("C17", tier, seed);
     rep.rule = "every two-hop swap of the history workload (v1 and v2, all four direction combinations, both modes, with/without limits, SPL and Token-2022 incl. transfer-fee mints, static and adaptive pools; 1 in 12 deliberately names the same pool twice or legs that do not chain): a successful two-hop is replayed on a clone of the pre-state as two single swaps whose second amount is the intermediate amount measured at the vaults; both legs must succeed and both pools, all named tick arrays, oracles and vaults must be byte-identical, trader input/output deltas identical, trader intermediate balance untouched; same pool twice / non-chaining mints must never succeed; outer threshold probes x-1/x/x+1 on clones. distinct = (instruction, mode, direction pair, limits)".into();
     rep.assumptions = vec![SVM_ASSUMPTION.into(), "'fails if either leg would fail on its own' is checked in its contrapositive form (success => both single legs succeed)".into()];
-    let per_shard = tier.pick(16, 1600);
+    let per_shard = tier.pick(64, 1600);
     let acc = run_histories(
         seed,
         per_shard,
@@ -132,7 +132,7 @@ pub fn c10(tier: Tier, seed: u64) -> i32 {
     let mut rep = Report::new("C10", tier, seed);
     rep.rule = "every successful single swap of the history workload: (1) reference traversal - the initialized ticks of the pre-state (harness decoders, all arrays in the bank) lying between start and end price, in price order, must be exactly the initialized ticks the swap-loop hook saw crossed, each once, and pool liquidity must change by exactly their signed nets; (2) packaging equivalence on clones of the pre-state for every second swap: permuted slots, duplicated accounts, supplemental arrays (v2), static slots holding one array with the rest supplemental, arrays without initialized ticks deleted from the bank and only named, every array transcoded fixed<->dynamic by the harness encoder, one slot replaced by a non-PDA address, an array of another pool. A variant that still contains every array the swap needs must be byte-identical in pool, oracle, balances, events and abstract tick contents; any other variant may only fail; a foreign array must fail. distinct = (variant, outcome, direction) and (instruction, direction, #crossed, #arrays visited, shifted start)".into();
     rep.assumptions = vec![SVM_ASSUMPTION.into()];
-    let per_shard = tier.pick(14, 1400);
+    let per_shard = tier.pick(56, 1400);
     let acc = run_histories(
         seed,
         per_shard,
@@ -158,7 +158,7 @@ pub fn c11(tier: Tier, seed: u64) -> i32 {
     let mut rep = Report::new("C11", tier, seed);
     rep.rule = "history workload with 1-3 rewards (SPL and Token-2022 mints), emission rates 0..2^128, clock steps 1s..10^9s, under-funded vaults, positions entering/leaving range: an exact shadow ledger distributes emissions x elapsed over the Position accounts in range in the state that held during each interval between reward-updating instructions; at every instruction that settles a position credited <= exact share and exact share - credited <= 1 + n_intervals*L/2^64 (intervals with dt*e >= 2^128 and amounts beyond 128/64 bits are exempt from the lower bound only); growth is never inflated, never moves with zero liquidity / uninitialized reward / unchanged timestamp; instructions with a clock earlier than the last update fail; collect_reward pays min(owed, vault) and keeps the rest; set_reward_emissions requires floor(86400*e/2^64) in the vault (probed with exactly that and one less on clones). distinct = (instruction, which rewards earned)".into();
     rep.assumptions = vec![SVM_ASSUMPTION.into()];
-    let per_shard = tier.pick(18, 1800);
+    let per_shard = tier.pick(72, 1800);
     let acc = run_histories(
         seed,
         per_shard,
@@ -181,7 +181,7 @@ pub fn c14(tier: Tier, seed: u64) -> i32 {
     let mut rep = Report::new("C14", tier, seed);
     rep.rule = "history workload on adaptive-fee pools (constants drawn from the validity rules incl. control factor 0 and extremes, tick group sizes dividing the spacing, trade-enable timestamps in the past/future, clock gaps in every class: < filter, < decay, >= decay, > 1h): for every successful swap leg an independent re-statement of the documented schedule is applied to the per-step hook records: the reference (vol, group, timestamp) expected from the pre-swap oracle variables and the clock by the filter/decay/reset rules must equal the stored one; every step with a non-zero amount lies in one tick group (or in a span over which the schedule is constant) and carries static + ceil(cf*(acc*size)^2/1e13) capped at 100000 with acc = min(vref + |g-gref|*10000, max); rates within [static, 100000]; accumulator <= max; stored accumulator = that of the end group or a neighbour; major-swap timestamp set iff the price moved by the threshold (2e-9 band on log price); control factor 0 => static rate and no extra step splitting; no trading before trade_enable_timestamp. distinct = (instruction, direction, elapsed-time class, control factor zero?, saturated?, #steps)".into();
     rep.assumptions = vec![SVM_ASSUMPTION.into(), "oracle variables are reached through sequences of swaps and clock gaps (no direct seeding)".into()];
-    let per_shard = tier.pick(18, 1800);
+    let per_shard = tier.pick(72, 1800);
     let acc = run_histories(
         seed,
         per_shard,
@@ -208,7 +208,7 @@ pub fn c18(tier: Tier, seed: u64) -> i32 {
     let mut rep = Report::new("C18", tier, seed);
     rep.rule = "history workload with lifecycle operations up-weighted (open x3 flavours + bundled incl. bounds left to be derived from the price, both sentinels, wrong-side sentinels; increase/decrease/collect; close x3; reset range incl. same / inverted / unaligned ranges; reposition; lock; transfer-locked; bundles at all 256 indexes and 256; delete bundle): every lifecycle instruction is judged on decoded pre/post state by rules taken from the statement: one position token, no mint authority, valid range, derived bounds equal the model's nearest usable tick on one side of the price, close only when empty and not locked, re-range only when empty (reset) to a different valid range with checkpoints reset, owed amounts survive reposition, locked positions reject decrease/close/reset/reposition but still accept increase/collect (differential against the same state unfrozen), only positions with liquidity lock, bundle bitmap == open bundled positions found in the bank, bundle deletion only when none is open. distinct = (instruction, outcome, predicate values)".into();
     rep.assumptions = vec![SVM_ASSUMPTION.into(), "the Metaplex metadata CPI of *_with_metadata runs against a recording stub".into()];
-    let per_shard = tier.pick(16, 1600);
+    let per_shard = tier.pick(64, 1600);
     let acc = run_histories(
         seed,
         per_shard,
